@@ -6,6 +6,9 @@ hooks = subprocess.run(["git", "-C", "/repo", "log", "--format=%H %s"], capture_
 hook_commits = [l.split()[0] for l in hooks if l.split(" ", 1)[1].startswith("verif:")]
 
 CHECKS = {
+ "C16": dict(engine="encrypt", design="§5 C16", technique="TLC exhaustive check of Keys.tla (ValueUsesMaterialInForce, LaterEventsUseNew, OneDerivedWrapperPerEvent, PerEventSaltInfoWin over all interleavings of events and rotations) + code->spec validation of recorded histories of the real filter (KeysTrace.tla)",
+   text="Model checking of which key material (wrapper epoch, derived per-event wrapper, salt, info) each value may use under any interleaving of events and rotations; random sequential and concurrent histories of Rotate, rotation payloads and events run on the real filter, every output value is classified by trial decryption with every wrapper and per-event derivation that ever existed and by independent HMAC recomputation, and TLC checks the classified history is a behaviour of the model (linearisation points placed by search). Corrupted histories must be rejected (self-test).",
+   note="Cryptographic correctness of AES-GCM/HKDF is trusted; the model decides which key and when. Byte strings include empty and non-UTF-8."),
  "C09": dict(engine="encrypt", design="§5 C09", technique="TLC-enumerated decision table Policy.tla (SecureDefault, FailClosed, precedence) and shape grammar Walk.tla (the reflection walk transcribed; NoLeak on the intended design, every deviation in a named class) + one implementation run per model state on the real encrypt.Filter",
    text="TLC evaluates, for every class/operation spelling x override map x wrapper state (20k vectors) and for every payload shape of the grammar up to the depth bound (785 at depth 4), what the filter must do; each vector is built with reflect (unique canaries at the leaves), run through the real Process, and each leaf classified by trial (redacted marker, decryption, HMAC recomputation, canary still readable in the value or in its JSON rendering). Shapes that leak or panic and belong to a recorded deviation class are reported as KNOWN-FINDING; any other leak, panic, wrong form or partial result is a violation.",
    note="Known findings F9a-d, F11, F12, F13 (known_findings.json). Interface-typed fields, arrays and []*string fields are outside the statement's grammar. AES-GCM / HKDF are trusted."),
